@@ -525,6 +525,21 @@ def replay_quantile(s, wshapes, lvecs, v, stats, oracle_every, rng, cut_qs, n_lv
                     if n != expect:
                         v.mismatch(f"determine_threshold_quantile: oracle index {expect}, real {n} for "
                                    f"{kind} {vec} lin={lin} q={q} likelihoods={tag}")
+            # ---- determine_threshold_quantile with a large common offset of the log-weights
+            if not degenerate and idx % 3 == 0:
+                for off in (-700.0, 500.0):
+                    smp = make_samples(logl, lw + off)
+                    replay = {"case": "cut", "method": "quantile", "logL": logl.tolist(),
+                              "logW": smp["logW"].tolist(), "kwargs": {"q": 0.8}, "shape": [kind, vec, lin]}
+                    stats["quantile_calls"] += 1
+                    try:
+                        n = s.determine_threshold_quantile(smp, q=0.8)
+                        check_index(n, size, v, f"determine_threshold_quantile({kind} {vec} lin={lin}, q=0.8, "
+                                    f"log-weights shifted by {off:g}, likelihoods={tag})", replay)
+                    except Exception as ex:  # noqa: BLE001
+                        v.violation("cut_index_raises",
+                                    f"determine_threshold_quantile raised {type(ex).__name__}: {ex} for {kind} "
+                                    f"weights {vec} lin={lin} shifted by {off:g} q=0.8 likelihoods={tag}", replay)
             # ---- weighted_quantile
             if degenerate:
                 try:
@@ -542,6 +557,10 @@ def replay_quantile(s, wshapes, lvecs, v, stats, oracle_every, rng, cut_qs, n_lv
             eqw = is_equal_weights(lw)
             if eqw:
                 calls.append(("no_weights", logl[perm], None, False))
+            # un-normalised log-weights with a large common offset are the same weights
+            if idx % 3 == 0:
+                for off in (-400.0, -1000.0, 600.0):
+                    calls.append((f"log-weights shifted by {off:g}", logl, lw + off, True))
             for cname, vals, lws, srt in calls:
                 check_wq(weighted_quantile, vals, lws, srt, qs, eqw, v, stats,
                          f"{kind} {vec} lin={lin} likelihoods={tag} ({cname})")
